@@ -228,7 +228,19 @@ def escRune (c : Rune) : List Rune :=
   else if c == 8 then [92, 98] else if c == 12 then [92, 102] else if c == 10 then [92, 110]
   else if c == 13 then [92, 114] else if c == 9 then [92, 116] else [c]
 
+/-- SPEC: JSON-style escaping in one pass -/
 def escapeStr (s : List Rune) : List Rune := s.flatMap escRune
+
+/-- `strings.ReplaceAll(s, string(c), rep)` for a one-rune pattern -/
+def replaceRune (c : Rune) (rep : List Rune) (s : List Rune) : List Rune :=
+  s.flatMap fun x => if x == c then rep else [x]
+
+/-- MustacheTemplate.escapeString: the eight sequential ReplaceAll calls, in the code's order -/
+def escapeSeq (s : List Rune) : List Rune :=
+  if s.isEmpty then []
+  else
+    replaceRune 9 [92, 116] (replaceRune 13 [92, 114] (replaceRune 10 [92, 110] (replaceRune 12 [92, 102]
+      (replaceRune 8 [92, 98] (replaceRune 47 [92, 47] (replaceRune 34 [92, 34] (replaceRune 92 [92, 92] s)))))))
 
 /-- lexicographic minimum of the matching keys (the repaired, deterministic GetVariable):
 exact key first, otherwise the smallest case-insensitive match -/
@@ -255,7 +267,7 @@ def renderTok (vars : List (List Rune × List Rune)) : MTok → Except MErr (Lis
     | .comment => .ok []
     | .value => .ok value
     | .variable => .ok ((getVariable vars value).getD [])
-    | .escapedVariable => .ok (escapeStr ((getVariable vars value).getD []))
+    | .escapedVariable => .ok (escapeSeq ((getVariable vars value).getD []))
     | .section => if isDefined vars value then renderToks vars kids else .ok []
     | .invertedSection => if !isDefined vars value then renderToks vars kids else .ok []
     | .partial_ => .error .internal
